@@ -212,3 +212,70 @@ Proof.
   pose proof (HN i _ H') as Y. unfold hnum in *. change squash_min_attr with (S "hcount") in *.
   rewrite aget_Fa_other in Y by exact hcount_ne. exact Y.
 Qed.
+
+(** ---- membership: the surviving atom of a class lists the coarse node of EVERY copy *)
+Lemma merged_lists_incl plan : forall (F : Z -> list pyval) k v, In v (F k) ->
+  In v (merged_lists F plan (sq_pass (plan_sq plan) k)).
+Proof.
+  induction plan as [|[keep rm] plan IH]; intros F k v H; [exact H|].
+  cbn [merged_lists plan_sq map fst snd]. unfold sq_pass. cbn [fold_left fst snd].
+  fold (sq_pass (plan_sq plan) (if Z.eqb k rm then keep else k)). apply IH.
+  destruct (Z.eqb_spec k rm) as [->|N].
+  - rewrite Z.eqb_refl. apply in_or_app. now right.
+  - destruct (Z.eqb_spec k keep) as [->|N']; [apply in_or_app; now left|exact H].
+Qed.
+Lemma bconn_rho g z : bconn (bang_items g) z (rho g z).
+Proof. unfold rho. apply (plan_sound (bang_items g) (bang_items g) []); [intros w; apply bc_refl|auto]. Qed.
+
+Theorem share_vs_cut_membership C D L aa gs' gd orig g' : wf_cut C -> wf_cut D ->
+  skeleton C aa gs' -> skeleton D aa gd -> adj_nodup gs' -> expands C D L orig ->
+  typed_g gs' -> hnum_g gs' -> squash_atoms (gmap (bangify L) gs') = Ok g' ->
+  forall x, In x (flat C) -> exists y l, In y (node_keys g') /\ pi_cut C D orig y = phi D (orig x) /\
+    node_get g' y (S "fragid") = Some (VList l) /\ In (VInt (Z.of_nat (owner C x))) l.
+Proof.
+  intros WC WD SkC SkD Adj X T HN Q x Fx.
+  pose proof (cut_skeleton_wf C WC aa gs' SkC) as Wf. set (gs := gmap (bangify L) gs') in *.
+  pose proof (wf_graph_gmap (bangify L) _ Wf) as Wg. fold gs in Wg.
+  destruct (squash_quotient gs g' Wg Q) as (_ & K & _ & R).
+  assert (Hp : In (phi C x) (node_keys gs)).
+  { unfold gs. rewrite node_keys_gmap. apply has_node_keys. exact (sk_node C aa gs' SkC x Fx). }
+  pose proof (R _ Hp) as Hy. set (y := rho gs (phi C x)) in *.
+  assert (Hys : In y (node_keys gs)) by (rewrite K in Hy; apply filter_In in Hy; tauto).
+  pose proof (squash_memberships gs g' _ _ Wg (typed_lists_of gs (typed_g_gmap _ _ T)) (hnum_g_gmap _ _ HN) Q) as ML.
+  apply has_node_keys in Hy. pose proof Hy as Hy'. apply has_node_gfind in Hy' as [n Gn].
+  assert (Na : nattrs g' y = Some (na n)) by (unfold nattrs; rewrite Gn; reflexivity).
+  destruct (ML y _ Na) as [Fy _].
+  exists y, (merged_lists (lists_fn gs (S "fragid")) (squash_plan [] (bang_items gs)) y).
+  split; [now apply has_node_keys|]. split; [|split].
+  - rewrite <- (pi_cut_phi C D orig x Fx). symmetry.
+    apply (pi_classes C D WC L aa gs' SkC Adj orig X (phi C x) y Hp Hys). apply bconn_rho.
+  - rewrite node_get_nattrs, Na. exact Fy.
+  - apply merged_lists_incl. unfold lists_fn, gs. rewrite nattrs_gmap.
+    destruct (sk_attrs _ _ _ SkC x Fx) as (Ef & _). rewrite node_get_nattrs in Ef.
+    destruct (nattrs gs' (phi C x)) as [a|]; [|discriminate]. cbn [option_map]. rewrite aget_Fa_other by exact fragid_ne.
+    rewrite Ef. now left.
+Qed.
+
+Theorem share_vs_cut_resolver_membership C D L aa orig fdC BC fdD BD :
+  wf_cut C -> templates_ok C fdC -> is_base C BC -> wf_dict fdC ->
+  wf_cut D -> templates_ok D fdD -> is_base D BD ->
+  (aa = true -> forall x, In x (flat C) ->
+     (exists e, aget (S "element") (payload C x) = Some e) /\ exists h, aget (S "hcount") (payload C x) = Some (VInt h)) ->
+  (aa = true -> forall x, In x (flat D) ->
+     (exists e, aget (S "element") (payload D x) = Some e) /\ exists h, aget (S "hcount") (payload D x) = Some (VInt h)) ->
+  expands C D L orig ->
+  exists gs fgs gd fgd,
+    (st <- resolve_disconnected (fdmap (bangify L) fdC) BC ;; bonding_step true aa BC (fst st) (snd st)) = Ok (gs, fgs) /\
+    (st <- resolve_disconnected fdD BD ;; bonding_step true aa BD (fst st) (snd st)) = Ok (gd, fgd) /\
+    (hnum_g gs -> forall g', squash_atoms gs = Ok g' ->
+       forall x, In x (flat C) -> exists y l, In y (node_keys g') /\ pi_cut C D orig y = phi D (orig x) /\
+         node_get g' y (S "fragid") = Some (VList l) /\ In (VInt (Z.of_nat (owner C x))) l).
+Proof.
+  intros WC TC IC WdC WD TD ID HaC HaD X.
+  destruct (cut_runs C D L aa fdC BC fdD BD WC TC IC WdC WD TD ID HaC HaD) as (gs' & fgs & gd & fgd & R1 & R2 & SkC & SkD & Adj & T).
+  exists (gmap (bangify L) gs'), fgs, gd, fgd. split; [exact R1|]. split; [exact R2|]. intros HN g' Q.
+  apply (share_vs_cut_membership C D L aa gs' gd orig g' WC WD SkC SkD Adj X T); [|exact Q].
+  intros i a H. assert (H' : nattrs (gmap (bangify L) gs') i = Some (Fa (bangify L) a)) by (rewrite nattrs_gmap, H; reflexivity).
+  pose proof (HN i _ H') as Y. unfold hnum in *. change squash_min_attr with (S "hcount") in *.
+  rewrite aget_Fa_other in Y by exact hcount_ne. exact Y.
+Qed.
